@@ -2,7 +2,7 @@
    class-table model Sem/ClassModel.v of Inherit._patch (source pinned by Gen/ObjPin.v) over the C3 linearisation Py/Mro.v. *)
 From Coq Require Import List Bool String.
 Import ListNotations.
-Require Import Base Mro Show ClassModel ObjPin Inherit Interp ObjModel InheritHeap HeapPatchers HeapFrame HeapBuild HeapCheck.
+Require Import Base Mro Show ClassModel ObjPin Inherit Interp ObjModel InheritHeap HeapPatchers HeapFrame HeapBuild MroFacts HeapCheck HeapClosed.
 Open Scope string_scope.
 
 Theorem C11_own : forall n t cls name owner m c,
@@ -90,6 +90,28 @@ Proof.
 Qed.
 Print Assumptions C11_built_plain_method_unchanged.
 
+(* closed: for EVERY list of class statements with distinct names (none called "object") whose bases are classes defined earlier
+   -- every program the model can express and Python accepts -- the world it builds meets wwf and hier_ok (the two C3 facts are proved
+   of Py/Mro.v in Thm/C11/MroFacts.v), so the frame statements hold with no hypothesis about the world *)
+Theorem C11_good_world : forall fuel patchers specs w,
+  good_specs specs -> define_all fuel (world0 patchers) specs = Some w -> wwf w /\ hier_ok w (spec_rank specs).
+Proof. exact good_world. Qed.
+Print Assumptions C11_good_world.
+Theorem C11_good_plain_method_registry_unchanged : forall fuel0 fuel patchers specs w cls w1 res c o r,
+  good_specs specs -> define_all fuel0 (world0 patchers) specs = Some w ->
+  attr_of w c = Some (AFunc o) -> own_wrapper (w_heap w) o = Some r ->
+  getattr_n fuel w cls = Some (w1, res) ->
+  get_reg (w_heap w1) r = get_reg (w_heap w) r /\ attr_of w1 c = Some (AFunc o).
+Proof. exact good_plain_method_registry_unchanged. Qed.
+Print Assumptions C11_good_plain_method_registry_unchanged.
+Theorem C11_good_lookup_frame : forall fuel0 fuel patchers specs w cls w1 res r,
+  good_specs specs -> define_all fuel0 (world0 patchers) specs = Some w ->
+  getattr_n fuel w cls = Some (w1, res) -> r < nregs (w_heap w) -> ~ Mut w r -> get_reg (w_heap w1) r = get_reg (w_heap w) r.
+Proof. exact good_lookup_frame. Qed.
+Print Assumptions C11_good_lookup_frame.
+Theorem C11_good_specs_decidable : forall specs, good_specs_b specs = true -> good_specs specs.
+Proof. exact good_specs_b_sound. Qed.
+
 (* non-vacuity: B1.m has('stdout') + pre 10, B2.m has('network') + pre 20, C(B1, B2).m marked inherit, D(B1) and E(B1) class-decorated
    (two Inherit objects holding B1's function): all worlds on the way satisfy the hypotheses; C enforces both, B1 is as it was *)
 Definition heap_classes : list cspec :=
@@ -104,9 +126,22 @@ Definition after (qs : list string) : option world :=
 Definition force (ow : option world) (c : string) :=
   match ow with Some w => match getattr_n 40 w c with Some (w1, Some o) => Some (in_force (w_heap w1) o) | _ => None end | None => None end.
 Example C11_heap_nonvacuous :
+  good_specs_b heap_classes = true /\
   run_case_wf heap_patchers heap_classes = true /\
   force (after []) "C" = Some ([(KPre, 10); (KPre, 20)], Some ["stdout"; "network"]) /\
   force (after ["C"; "D"; "E"]) "B1" = Some ([(KPre, 10)], Some ["stdout"]) /\
   force (after ["E"; "C"]) "D" = Some ([(KPre, 10)], Some ["stdout"]) /\
   match after ["C"; "D"; "E"] with Some w => wwf_b w && hier_ok_b w | None => false end = true.
 Proof. vm_compute. repeat split. Qed.
+
+(* C11-F1 (open finding), pinned: has() contracts are merged by UNION of the marker sets. P.m declares has('network'), K(P).m is marked
+   inherit and declares has('stdout') itself: what is in force on K.m admits 'network' (which K.m's own contract forbids) and 'stdout'
+   (which the inherited contract forbids), so neither its own nor the ancestor's marker contract is enforced. *)
+Definition union_classes : list cspec :=
+  [ {| cs_name := "P"; cs_bases := []; cs_method := Some {| ms_steps := [SHas 2]; ms_inherit := false |}; cs_inherit := false |};
+    {| cs_name := "K"; cs_bases := ["P"]; cs_method := Some {| ms_steps := [SHas 1]; ms_inherit := true |}; cs_inherit := false |} ].
+Example C11_has_merged_by_union_refuted :
+  match define_all 40 (world0 heap_patchers) union_classes with
+  | Some w => match getattr_n 40 w "K" with Some (w1, Some o) => snd (in_force (w_heap w1) o) | _ => None end
+  | None => None end = Some ["stdout"; "network"].
+Proof. vm_compute. reflexivity. Qed.
